@@ -8,11 +8,15 @@ open Gomjml.Layout Gomjml.Spec
 theorem C03_partial (bs : List Block) (h : Tame bs false) : MsoWF ((render bs).map Tok.toG) :=
   (wf_spec _ (C02_C03_tame bs h)).2.1
 
+/-- **C03 for every body whose wrappers are tame** -/
+theorem C03_all_bodies (bs : List Block) (hw : WrappersTame bs) : MsoWF ((render bs).map Tok.toG) :=
+  (wf_spec _ (C02_C03_all bs hw)).2.1
+
 /-- non-vacuity: a wrapper with a coloured section, a raw and a right-aligned single column; a background-image section -/
 example : Tame [.wrapper ⟨false, true, [.sec ⟨false, false, false, false, true, false, [.col ⟨false, [.text]⟩]⟩, .raw false,
                                         .sec ⟨false, false, true, false, false, false, [.col ⟨false, [.text]⟩]⟩]⟩,
                 .section ⟨false, true, false, false, false, false, [.col ⟨true, [.text, .raw]⟩, .col ⟨false, []⟩]⟩] false := by
-  simp [Tame, Wrapper.tame, secsOf, Section.emit, emitToks, secLeave, Block.isSec]
+  simp [Tame, Wrapper.tame, secsOf, Section.emit, emitToks, secLeave, nextConsumes]
 
 /-- **the full statement is false of the code**: the wrapper ↔ section Outlook hand-over is unbalanced for
     a wrapper whose only child is a blank raw … -/
